@@ -119,10 +119,12 @@ package filtering
 //@   pure-function
 //@   modifies nothing
 //@ func (d *DNSFilter) filterSetProperties(listURL string, newList FilterYAML, isAllowlist bool) (shouldRestart bool, err error)
-//@   property C01
+//@   property C01, C15
 //@   requires !held(d.conf.filtersMu) && !rheld(d.conf.filtersMu)
 //@   requires unloadedIfDisabled(isAllowlist ? d.conf.WhitelistFilters : d.conf.Filters)
 //@   ensures disabled-lists-stay-unloaded: err == nil ==> unloadedIfDisabled(isAllowlist ? d.conf.WhitelistFilters : d.conf.Filters)
+//@   ensures failed-change-changes-nothing: err != nil && !isAllowlist ==> (forall k int :: {mark(k)} 0 <= k && k < len(d.conf.Filters) ==> d.conf.Filters[k].checksum == old(d.conf.Filters[k].checksum) && d.conf.Filters[k].URL == old(d.conf.Filters[k].URL) && d.conf.Filters[k].Enabled == old(d.conf.Filters[k].Enabled))
+//@   ensures failed-change-changes-nothing-allow: err != nil && isAllowlist ==> (forall k int :: {mark(k)} 0 <= k && k < len(d.conf.WhitelistFilters) ==> d.conf.WhitelistFilters[k].checksum == old(d.conf.WhitelistFilters[k].checksum) && d.conf.WhitelistFilters[k].URL == old(d.conf.WhitelistFilters[k].URL) && d.conf.WhitelistFilters[k].Enabled == old(d.conf.WhitelistFilters[k].Enabled))
 //@   modifies *
 
 // ---- C18: every list of blocked services is applied under its own pause schedule ----
@@ -221,6 +223,7 @@ package filtering
 //@ func (d *DNSFilter) update(flt *FilterYAML) (ok bool, err error)
 //@   trusted
 //@   ensures switches-kept: flt.Enabled == old(flt.Enabled) && flt.URL == old(flt.URL)
+//@   ensures failure-keeps-metadata: err != nil ==> flt.checksum == old(flt.checksum) && flt.RulesCount == old(flt.RulesCount) && flt.Name == old(flt.Name)
 //@   modifies *flt, parseOK, fpos
 //@ func (d *DNSFilter) listsToUpdate(filters *[]FilterYAML, force bool) (toUpd []FilterYAML)
 //@   trusted
